@@ -68,6 +68,8 @@ TAskCallQuiet ==
         /\ (AskOwn \/ Ask(n, Ev.p))
         /\ req'.st = "call" /\ req'.n = n /\ req'.p = Ev.p
 TOrigQuiet == T.noorig /\ req.st = "call" /\ Silent /\ OrigCall("ok")
+\* ... and without a database nothing at all is observable of gemseo's own requests
+TAskOwnBlind == T.noorig /\ ~cfg.useDb /\ todo # <<>> /\ req.st = "none" /\ Silent /\ AskOwn
 
 \* gemseo's own request served from the database, or stopped (NaN input, budget)
 TOwnQuiet == todo # <<>> /\ Silent /\ AskOwn /\ req'.st = "none"
@@ -103,7 +105,7 @@ TNewIterDrv ==
 TQuiet ==
   /\ Silent
   /\ \/ PreRunDone \/ NextSample \/ KktPass \/ KktStop \/ ClearListeners \/ Resume
-     \/ (More /\ Ev.ev = "end" /\ Ev.cause = "Normal" /\ AlgoReturn)
+     \/ (More /\ Ev.ev = "end" /\ Ev.cause \in {"Normal", "Other"} /\ AlgoReturn(Ev.cause))
      \/ (More /\ Ev.ev = "end" /\ BuildResult(Ev.xopt))
 
 TEnd ==
@@ -120,7 +122,7 @@ TCrash ==
   /\ Ev.cur = cur /\ Ev.len = Len(keys)
   /\ UNCHANGED vars
 
-TNext == TExec \/ TAskCall \/ TAskCallQuiet \/ TOrigQuiet \/ TOwnQuiet \/ TAlgoMaxIter \/ TOrig \/ TStore \/ TExtraStore
+TNext == TExec \/ TAskCall \/ TAskCallQuiet \/ TOrigQuiet \/ TAskOwnBlind \/ TOwnQuiet \/ TAlgoMaxIter \/ TOrig \/ TStore \/ TExtraStore
          \/ TNewIterUser \/ TNewIterDrv \/ TQuiet \/ TEnd \/ TCrash
 
 (* ------------------------------------------------------------------ lenient: observed effects *)
